@@ -6,17 +6,22 @@ import os
 from . import common
 
 MODULE = "StorageModel.Properties.C20"
-THEOREMS = ["table_complete", "table_nil_tolerant", "validator_shape", "table_complete_spelled", "visit_sees_all",
+THEOREMS = ["table_complete", "table_nil_tolerant", "validator_shape", "validator_good", "table_complete_spelled", "visit_sees_all",
             "visit_sees_all_repo", "validate_total", "validate_iff", "validate_names", "validate_accepts_or_names",
-            "single_nonpublic_named", "validate_iff_source", "typing_facts",
-            "validate_iff_typing", "validate_iff_checked", "validate_names_typing", "validate_is_stateful_run",
+            "validate_iff_repo", "validate_names_repo", "isPublic_good_eq_spec", "bad_shapes_witness",
+            "single_nonpublic_named", "validate_iff_source", "transform_facts", "typed_tree_symbols", "typed_tree_admissible",
+            "validate_iff_transform", "validate_names_transform", "validate_iff_transform_repo", "validate_is_stateful_run",
+            "validate_panics_iff", "validate_iff_nopanic", "query_api_covered", "alias_sites_ok", "api_symbols_seen",
             "incomplete_table_witness", "map_element_public_iff", "map_element_public_iff_code", "composite_not_inherited",
             "explicit_element_marking"]
 TABLE_OBLIGATIONS = [
-    "table_complete (Generated/AcceptTable.lean, regenerated from the Accept methods of ast/*.go: every node-valued field forwarded, every symbol announced, no unrecognised statement, no field that could hide a node)",
+    "table_complete (Generated/AcceptTable.lean, regenerated from the Accept methods of ast/*.go: every node-valued field forwarded, every symbol announced, no unrecognised statement, no field that could hide a node — interface, map, channel or func-typed fields whose type mentions anything but basic types are listed as opaque and only the alias AnyOfSetExprNode.seekablePredicate is allowed)",
+    "query_api_covered (Generated.queryApi / symbolVia: every method of queryNode in the exported interface ast.Query is a recognised accessor — getter, elements-of-slice getter, setter, adoption, construction from scalars, scalar getter, evaluation — over node-valued fields that Accept forwards; every Symbol() returns a symbol-holding string field or delegates to a child)",
+    "alias_sites_ok (Generated.aliasSites: every write of an alias field in package ast is a composite literal that also sets the aliased child to the same node)",
     "table_nil_tolerant (the nil children the parser leaves are guarded / nil-safe receivers)",
-    "validator_shape (publicSymbolValidator overrides VisitSymbol only; every DefaultVisitor method is empty)",
-    "typing_facts (symbol node kinds keep their symbol in `symbol` and announce it; StringFuncNode holds none)",
+    "validator_shape (publicSymbolValidator overrides VisitSymbol only, has no state besides store and err; every DefaultVisitor method is empty)",
+    "validator_good (Generated.validatorShape, the decision structure of BaseStore.IsPublicSymbol / publicSymbolValidator.VisitSymbol / ValidateSymbolsArePublic regenerated from boltz/store_query.go and boltz/validate.go, is a GoodShape: exact name or FIRST segment a listed MAP symbol; first offending symbol kept; one fresh validator walked over the whole query by query.Accept)",
+    "transform_facts (every node shape the modelled typing transformation builds is one the regenerated table describes: fields exist, single-valued children exactly those it fills; built and consumed kinds hold no symbol in their own strings except the symbol kinds, which keep it in `symbol` and announce it; SortByNode has only slice children, NullConstNode none)",
 ]
 
 RULE = ("one case = one real tree x one public/non-public assignment. Trees: (p) every query atom of the generator "
@@ -24,12 +29,15 @@ RULE = ("one case = one real tree x one public/non-public assignment. Trees: (p)
         "and/or/not compositions with sort/skip/limit clauses, parsed by the real ast.Parse; (s) real ast structs allocated "
         "field by field for every node kind of the regenerated table x every child position (the only occurrence of a "
         "non-public symbol below that child), nil in every single-valued position, one-symbol queries over 40+ plain, "
-        "dotted and malformed names, and random well-typed trees; (u) the untyped tree the parse listener builds. "
+        "dotted and malformed names, and random well-typed trees, with typed nil pointers in interface-typed positions and nil / "
+        "typed-nil slice elements; (a) queries assembled through the exported API (Parse, SetPredicate, AdoptSortFields, "
+        "NewAndExprNode, NewInArrayExprNode + PostProcess, NewInt64BetweenOp, SetSkip, SetLimit; nil, typed-nil and zero-value "
+        "arguments); (u) the untyped tree the parse listener builds. "
         "Assignments: all subsets of the symbols a tree references (up to the tier's cap, else all-public, each "
         "single-non-public and random ones), other symbols random. non-trivial = the tree references at least one symbol; "
         "distinct = (tree, set of referenced non-public symbols)")
 
-DIAG = ("tree-changed", "cfg-mismatch", "parse-error", "unbuildable", "bad-case", "not-a-", "hidden-node", "panic-mismatch",
+DIAG = ("tree-changed", "symtab-changed", "cfg-mismatch", "parse-error", "unbuildable", "bad-case", "not-a-", "hidden-node", "panic-mismatch",
         "err-other")
 
 
@@ -83,10 +91,14 @@ def judge(case, a, s):
         return "the parser produced a typed query with a nil child in a mandatory position"
     if verdict == "diag":
         return None  # not judgeable: reported as a correspondence failure (impl != model)
-    if not sp["wf"]:
-        return None  # nil child where the parser never leaves one: outside the property
     if verdict == "panic":
-        return "validation panics on a tree whose nil children are only where the parser leaves them"
+        # nil children / typed nil pointers where the parser never leaves one: a panic there is outside the property
+        # (the model predicts it: validate_panics_iff); on parser-shaped trees validation must not panic
+        return "validation panics on a tree whose nil children are only where the parser leaves them" if sp["wf"] else None
+    if tag in ("s", "a") and not sp["nc"]:
+        return None  # a built tree whose hoisted set-function name is announced by nothing below it: hypothesis Admissible fails
+    # from here on: validation ran to completion, so it must have seen every symbol (theorem validate_iff_nopanic) —
+    # also on trees with typed nil pointers / nil children that Go happens to tolerate
     if tag == "p" and not sp["tt"] and set(visited or []) <= set(sp["all"]) and set(visited or []) != set(sp["all"]):
         missing = sorted(set(sp["all"]) - set(visited or []))
         return ("the typed query and the query text do not reference the same symbols (a symbol of the text was dropped "
@@ -96,6 +108,14 @@ def judge(case, a, s):
         extra = sorted(set(visited or []) - set(sp["all"]))
         return ("the traversal does not announce referenced symbol(s) " + ", ".join(map(_unname, missing)) if missing
                 else "the traversal announces symbol(s) the query does not reference: " + ", ".join(map(_unname, extra)))
+    api = [t[2:] for t in a.split(" ") if t.startswith("g=")]
+    if api and api[0] != "-":
+        handed = [x for x in api[0].split(",") if x not in ("!", "?")]
+        unseen = sorted(set(handed) - set(visited or []))
+        if unseen:
+            return "GetSortFields() hands out symbol(s) that validation never saw: " + ", ".join(map(_unname, unseen))
+    if any(t == "gp=0" for t in a.split(" ")):
+        return "GetPredicate() does not return the node that Accept walks as the predicate"
     if tag == "u" or not sp["cfg"]:
         return None
     if verdict == "ok" and sp["bad"]:
@@ -123,6 +143,9 @@ def kinds_and_slots(toks):
         pos += 1
         if t == "Z":
             return 0, False
+        if t == "T":
+            pos += 1
+            return 0, False
         kind = toks[pos]
         n = int(toks[pos + 1])
         pos += 2 + 2 * n
@@ -149,12 +172,16 @@ def kinds_and_slots(toks):
 def describe(case, impl, model, spec):
     f = case.split(" ")
     d = {"kind": {"p": "ast.Parse + ValidateSymbolsArePublic", "s": "built tree + ValidateSymbolsArePublic",
-                  "u": "untyped listener tree, traversal only"}.get(f[0], f[0]),
+                  "u": "untyped listener tree, traversal only",
+                  "a": "query assembled through the exported API (ast.Parse, SetPredicate, AdoptSortFields, NewAndExprNode, …) + ValidateSymbolsArePublic"}.get(f[0], f[0]),
          "public_symbols": [_unname(x) for x in _names(f[3])] if len(f) > 3 else None,
          "map_symbols": [_unname(x) for x in _names(f[2])] if len(f) > 2 else None,
          "impl": impl, "model": model, "spec": spec, "case": case}
     if len(f) > 4 and f[4] != "-":
         d["query"] = _unname(f[4])
+        if f[0] == "a":
+            t1, t2, ops = (d["query"].split("\x1f") + ["", "", ""])[:3]
+            d["recipe"] = {"base": t1, "other": t2, "ops": ops.split(";")}
     sp = parse_spec(spec or "")
     if sp:
         d["referenced_symbols"] = [_unname(x) for x in sp["all"]]
@@ -178,10 +205,11 @@ def run(ctx, replay_cases=None):
         "the extractor's reading of the Accept bodies (six recognised statement shapes; anything else is `unknown` and fails table_complete) is faithful; the correspondence compares the model's traversal driven by that table with the real Accept methods on every case",
         "trees are read from / written to the real ast structs by reflection over their fields (harness/c20_reflect.go); a struct field that can hold a node but is neither a node interface, a *kind, a kind nor a slice of those would be invisible to both extractor and walker, except that interface/map fields are reported as opaque (table_complete allows only AnyOfSetExprNode.seekablePredicate, which the walker checks to alias `predicate`)",
         "hypothesis Admissible: AllOfSetExprNode.name / AnyOfSetExprNode.name is announced by a node below (SetFunctionNode.MoveUpTree keeps the set symbol as left operand); checked on every parsed tree of the run, and the specification counts the name as referenced, so a transformation that lost it is reported",
-        "the typing transformation (ast/node_convert.go, node_query.go, node_symbol.go) is modelled as a relation `Typing` between the untyped listener tree and the typed query (which typed kind is chosen is left open, where operands go is not); symbol preservation and coverage of hoisted names are proved for the relation (typing_symbols, typing_namesCovered); that the real transformation stays inside the relation is checked on every parsed case (decidable checker isTyping, proved sound), and independently the symbols of both real trees are compared and the specification judges against their union",
+        "the typing transformation (ast/node_convert.go transformTypes and every TypeTransform / TypeTransformBool method of node_convert.go, node_query.go, node_symbol.go, node_expr.go) is modelled as a deterministic function `transform` on the generic tree, directed by the symbol types (read off the real ast.SymbolTypes per parsed case: GetSymbolType / GetSetSymbolTypes), the regenerated interface table (type assertions), GetType constants and enumeration constants; shaped / nilOk / namesCovered / symbol preservation are theorems about the tree it builds (transform_good); that it builds the real typed tree is checked by exact tree equality on every parsed case; unmodelled (the function returns an error, which the correspondence would flag): strings.ToUpper beyond ASCII and of non-string constants under icontains, a set function over a sub-query in a comparison; independently the symbols of both real trees are compared and the specification judges against their union",
         "hypothesis pubWF: an element of a non-public map is not itself marked public (MakeSymbolPublic(\"tags.k\")); such configurations are generated, compared with the model, and excluded from the accept-iff judgement (theorem explicit_element_marking)",
         "symbols inside a sub-query are validated against the outer store (the store passed to ValidateSymbolsArePublic), as the code does and the property says ('public for the store')",
-        "typed nil pointers stored in an interface-typed field and nil elements of slices are not generated",
+        "typed nil pointers stored in interface-typed fields, nil slice elements and nil children in every position are generated (built trees, and recipes over the exported API: SetPredicate / NewAndExprNode / NewInt64BetweenOp with nil and typed-nil arguments, zero-value nodes); the model predicts exactly when validation panics (nil interface not guarded, nil receiver whose Accept reads a field, value receiver) and the implementation is compared with it; a panic outside the parser's nil positions is garbage-in and not counted against the property, but whenever validation returns it is judged for having seen every symbol",
+        "what the Query interface hands out besides Accept — GetSortFields()[i].Symbol(), GetPredicate() — is observed on every case and compared with the model's reading of the regenerated accessor table (Generated.queryApi, symbolVia)",
     ]
     os.environ["VERIF_ACCEPT_FACTS"] = os.path.join(common.FACTS, "accept.json")
     with common.Lock():
@@ -237,7 +265,7 @@ def run(ctx, replay_cases=None):
         elif a != m:
             corr_bad.append((c, a, m, s, "implementation and model outputs differ"))
         elif (parse_spec(s) or {}).get("ty") is False:
-            typing_bad.append((c, a, m, s, "the real typed tree is not a typing of the real untyped tree according to the modelled relation `Typing`"))
+            typing_bad.append((c, a, m, s, "the modelled typing transformation `transform` does not yield the real typed tree from the real untyped tree"))
         toks = tree_tokens(c)
         kinds, slots, depth = kinds_and_slots(toks)
         seen_kinds |= kinds
@@ -269,8 +297,8 @@ def run(ctx, replay_cases=None):
     ncorr = len(corr_bad) + len([b for b in spec_bad if b[1] != b[2]])
     ctx.obligation("correspondence: implementation output (verdict, named symbol, sequence of VisitSymbol calls) = model output on every generated case",
                    ncorr == 0, f"{ncorr} disagreement(s)")
-    ctx.obligation("correspondence of the typing model: `isTyping` (sound for the relation `Typing`, theorem isTyping_sound) accepts the real (untyped listener tree, typed query) pair of every parsed case",
-                   not typing_bad, f"{len(typing_bad)} pair(s) rejected")
+    ctx.obligation("correspondence of the typing model: `transform` (C20/Transform.lean) applied to the real untyped listener tree, for the symbol types the real SymbolTypes reports, yields exactly the real typed query (kinds, string and enumeration fields, children) on every parsed case",
+                   not typing_bad, f"{len(typing_bad)} tree(s) differ")
     corr_bad += typing_bad
     if replay_cases is None:
         table_kinds = [k["name"] for k in facts["kinds"]]
@@ -287,8 +315,9 @@ def run(ctx, replay_cases=None):
         exp = json.load(open(os.path.join(common.VERIF, "checks", "expect", "c20_sources.json")))
         diff = {k: v for k, v in facts.get("sourceHashes", {}).items() if exp.get(k) != v}
         if diff:
-            ctx.notes.append("validate.go / IsPublicSymbol source differs from the text the hand-written model was read from "
-                             "(the correspondence decides whether the model still follows it): " + ", ".join(sorted(diff)))
+            ctx.notes.append("validate.go / IsPublicSymbol source text differs from the text recorded when the check was written "
+                             "(informational: the validator is interpreted from the regenerated shape, obligation validator_good): "
+                             + ", ".join(sorted(diff)))
     except (OSError, ValueError):
         pass
 
@@ -297,12 +326,12 @@ def run(ctx, replay_cases=None):
         if common.classify(ctx, MATCHERS, b[0], {"impl": b[1], "model": b[2], "spec": b[3]}) is None:
             unknown.append(b)
     if unknown:
-        c, a, m, s, why = min(unknown, key=lambda u: ("psu".find(u[0][0]), len(u[0]), u[0]))
+        c, a, m, s, why = min(unknown, key=lambda u: ("pasu".find(u[0][0]), len(u[0]), u[0]))
         common.violation(ctx, "property-fails-on-input", c,
                          dict(describe(c, a, m, s), what_fails=why, unlisted_failing_cases=len(unknown),
                               more=[u[0] for u in sorted(unknown, key=lambda u: len(u[0]))[1:6]]))
     elif corr_bad:
-        c, a, m, s, why = min(corr_bad, key=lambda u: ("psu".find(u[0][0]), len(u[0]), u[0]))
+        c, a, m, s, why = min(corr_bad, key=lambda u: ("pasu".find(u[0][0]), len(u[0]), u[0]))
         common.violation(ctx, "correspondence-broken", c,
                          dict(describe(c, a, m, s), disagreements=len(corr_bad),
                               reason="implementation and Lean model disagree although the implementation still meets the spec on every explored input; the theorems no longer speak about this code"),
